@@ -273,11 +273,15 @@ func TestC15Writer(t *testing.T) {
 		}
 		ks := faultIndices(base.calls, 300, rt)
 		for _, k := range ks {
-			for v := 0; v < 4; v++ {
+			for v := 0; v < 5; v++ {
 				cc := c
 				cc.FailAt, cc.Sticky = k, v&1 == 1
 				if v&2 != 0 {
 					cc.Partial = 1 + k%3
+				}
+				if v == 4 {
+					// the failing call accepts everything and still reports an error: (len(p), err)
+					cc.Partial = 1 << 30
 				}
 				journal("C15", "C15/writer", cc)
 				judge(rt, "C15", "C15/writer", cc, safelyF(func() *stat.Failure { return runC15WWith(cc, base, rec) }))
@@ -285,7 +289,7 @@ func TestC15Writer(t *testing.T) {
 		}
 		if sampled < 8 {
 			sampled++
-			rec.Sample(map[string]interface{}{"side": "writer", "opts": c.Opts.String(), "len": nbytes, "delivery": c.Del, "sink calls in the fault-free run": base.calls, "fault indices tried": len(ks), "variants": 4})
+			rec.Sample(map[string]interface{}{"side": "writer", "opts": c.Opts.String(), "len": nbytes, "delivery": c.Del, "sink calls in the fault-free run": base.calls, "fault indices tried": len(ks), "variants": 5})
 		}
 	})
 }
